@@ -239,12 +239,35 @@ PENDING_REASON = 'check not built yet in this working session (planned, see DESI
 ALL = ['C%02d' % i for i in range(1, 21)]
 
 
+# generators added in round 6 (DESIGN 10.1 / 10.5)
+ROUND6 = {
+    'C02': 'Also: the incremental form of a frame object that was encoded or decoded before and then given another payload.',
+    'C08': 'Also: the C17 reconnect workload judged per connection (SETUP first and once, a stream begins with a request '
+           'frame on this connection, odd ids).',
+    'C09': 'Also: requests served through RequestRouter whose route returns a pending future, task or publisher, cancelled '
+           'while pending; half of the link draws on the repository\'s websocket transport glue.',
+    'C13': 'Also: an id handed out to a request_stream / request_channel publisher that is subscribed only after the '
+           'allocator has wrapped.',
+    'C14': 'Also: the server as the lease-honouring requester; half of the link draws on the websocket transport glue.',
+    'C15': 'Also: a client that reconnects from its keepalive-timeout callback to servers that fall silent at once or '
+           'after a while, with timers firing late by 0 / 20 us / 1 ms: the callback is due on every connection.',
+    'C16': 'Half of the client-side link draws on the websocket transport glue.',
+    'C17': 'Also: a client that grants leases too; a request of the new server (which honours leases) must be served on '
+           'every connection.',
+    'C19': 'Half of the link draws on the websocket transport glue.',
+    'C20': 'Also: a core-API requester granting credit in several back-to-back request() calls against the handler '
+           'adapters; half of the link draws on the websocket transport glue.',
+}
+
+
 def main():
     checks = []
     for pid in ALL:
         c = CHECKS.get(pid)
         if not c:
             continue
+        if pid in ROUND6:
+            c = dict(c, text=c['text'] + ' ' + ROUND6[pid])
         checks.append({
             'property_id': pid,
             'quick_cmd': '%s -m rv check %s --tier quick' % (PY, pid),
